@@ -93,6 +93,9 @@ Record model := {
 Definition max_list (l : list Z) : Z := fold_right Z.max 0 l.
 Definition number_from_1 (l : list string) : list (Z * string) := map (fun p => (fst p + 1, snd p)) (py_enumerate l).
 
+(* The theorem content of Impl = Spec is the PARAMETER side: e_sig, e_call, e_stpnt, e_parnames, e_dfdp, e_bvp, e_npar (registration,
+   reordering, slot function, extras).  The STATE side (e_stpnt_y, e_unames, e_ndim) is the same term in emit_with and spec_emit
+   (number_from_1 over m_states): it is shared, not proved; its tie to the code is the correspondence run only. *)
 Definition emit_with (param_indices : list string -> list Z) (m : model) : emission :=
   let decl := register (register [] (m_events m)) (m_args m) in
   let sig := "t"%string :: "y"%string :: head_args decl (m_ret m) (m_args m) in
@@ -116,7 +119,9 @@ Definition emit_with (param_indices : list string -> list Z) (m : model) : emiss
      e_ndim := Z.of_nat (List.length (m_states m));
      e_npar := match idx with [] => 1 | _ => max_list idx end |}.
 
-(* _build_auto_constants_file: consts['NDIM'] = ndim; consts['NPAR'] = npar; consts.update(overrides) *)
+(* _build_auto_constants_file: consts['NDIM'] = ndim; consts['NPAR'] = npar; consts.update(overrides).
+   consts_of occurs in NO theorem: the c.<scenario> files (which scenarios are written, NDIM/NPAR after user overrides, the other
+   overridden constants) are tied by the correspondence run only (harness/c18.py `finalize` and `harness_side`). *)
 Definition consts_of (m : model) (e : emission) : Z * Z :=
   (match lookupz (m_over m) "NDIM" with Some v => v | None => e_ndim e end,
    match lookupz (m_over m) "NPAR" with Some v => v | None => e_npar e end).
@@ -212,8 +217,12 @@ Definition f32_round (q : Qc) : Qc :=
   let r := (Q2Qc (inject_Z (round_half_even (a * pow2 (23 - e))%Qc)) * pow2 (e - 23))%Qc in
   if Qle_bool (this q) 0 then (- r)%Qc else r.
 Definition f32_exact (q : Qc) : bool := Qeq_bool (this (f32_round q)) (this q).
-(* model switch (read by harness/c18.py as well): false = the code as it is (binary32 literals); true = after the repair
-   /verif/fixes/proposed_fix_C18_stpnt.diff, which writes double-precision literals (0.1d0) *)
+(* model switch (read by harness/c18.py as well): true = the code as it is since repair D65 (dc98fd9: double-precision literals,
+   0.1d0); false = the code before D65 (literals without kind suffix, read as binary32).  With the switch on, `stpnt_value` is the
+   identity, so `compiled_stpnt = spec_stpnt` holds by definition (C18_stpnt_full is a definitional statement: it records which
+   model is in force, it does not prove anything about the printer).  What decides "STPNT holds the model's values" is the
+   correspondence run: the printed literal is parsed back, the compiled stpnt output is read, and both are compared bit-exactly
+   with the model's binary64 values over all magnitudes (harness/c18.py, stream (e)). *)
 Definition fixed_stpnt : bool := true.
 Definition stpnt_value (q : Qc) : Qc := if fixed_stpnt then q else f32_round q.
 (* values that `stpnt` leaves in PAR / U when called *)
